@@ -211,4 +211,7 @@ class Parameter(AnnotatedValue):
 
 def make_item_name(array, index):
     """Create a name from an indexable object and its index."""
+    if isinstance(index, AnnotatedValue):
+        # A let constant or macro parameter: use its identifier, as in the Jaqal text.
+        index = index.name
     return f"{array.name}[{index}]"
